@@ -135,8 +135,8 @@ Qed.
 (* ---- non-vacuity ------------------------------------------------------------ *)
 Definition ex_idA : bytes := [170; 187; 204; 221; 238; 255].
 Definition ex_idB : bytes := [1; 2; 3; 4; 5; 6].
-Definition ex_A : pairing := mkP ex_idA (Some 1) (Some 7) (Some 7) [(9, FBool); (11, FU16); (14, FInt)].
-Definition ex_B : pairing := mkP ex_idB (Some 2) (Some 300) (Some 300) [(11, FU8)].
+Definition ex_A : pairing := mkP ex_idA (Some 1) (Some 7) (Some 7) [(9, FBool); (11, FU16); (14, FInt)] true.
+Definition ex_B : pairing := mkP ex_idB (Some 2) (Some 300) (Some 300) [(11, FU8)] false.
 Definition ex_hdr (i : bytes) : bytes := 17 :: 54 :: i.
 (* gsn 9, iid 11, value 0x0201 *)
 Definition ex_pt : bytes := [9; 0; 11; 0; 1; 2; 0; 0; 0; 0; 0; 0].
